@@ -137,6 +137,27 @@ func (e *Exec) CompareState(st *AppState, phase, txKind string, step int) []core
 			add(balanceProp(phase, txKind, ""), "balance-vs-model", map[string]string{"who": "unknown-address"}, "address %s holds %s but the model knows no such holder", ah, b)
 		}
 	}
+	// second denomination (moves only as part of a fee)
+	dkeys := make([]string, 0, len(m.Dust))
+	for k := range m.Dust {
+		dkeys = append(dkeys, k)
+	}
+	sort.Strings(dkeys)
+	for _, k := range dkeys {
+		ah := e.addrOfKey(k)
+		got := st.Dust[ah]
+		if got == nil {
+			got = new(big.Int)
+		}
+		if got.Cmp(m.Dust[k]) != 0 {
+			prop := "C03"
+			if phase == "BeginBlock" {
+				prop = "C10"
+			}
+			add(prop, "balance-vs-model", map[string]string{"who": "second-denomination"}, "second-denomination balance of %s is %s, reference model says %s", k, got, m.Dust[k])
+			m.Dust[k] = new(big.Int).Set(got)
+		}
+	}
 	// validators
 	statusProp := map[string]string{"InitChain": "C06", "BeginBlock": "C07", "DeliverTx": "C06", "EndBlock": "C06", "Commit": "C06"}[phase]
 	stakeProp := map[string]string{"InitChain": "C04", "BeginBlock": "C07", "DeliverTx": "C04", "EndBlock": "C06", "Commit": "C04"}[phase]
